@@ -49,7 +49,7 @@ def closure_tables(fn):
 
 
 def T(*rows):
-    return {(frozenset(c), leaf, tuple(ef)) for c, leaf, ef in rows}
+    return dtree.Table((frozenset(c), leaf, tuple(ef)) for c, leaf, ef in rows)
 
 
 FILL = T((['mask_func(v)'], 'value', []), (['!mask_func(v)'], 'v', []))
